@@ -170,6 +170,7 @@ class MarkerPlan(Plan):
 
     def __init__(self, pid):
         self.pid = pid
+        self.level = "proof" if pid == "C12" else "other"
         self.explanation = ("proof part: every path-VC of the listed combinator functions is discharged for all markers / all list lengths / all environments (pointwise ghosts); "
                             "bounded part: the same meaning contract evaluated on real markers from the atom pool (covers the assumed atom layer). The two together are reported, the bounded part never counted as proved.")
 
